@@ -162,6 +162,13 @@ int main(void)
   size_t batch = 64;
   if(getenv("VERIF_BATCH")) batch = strtoul(getenv("VERIF_BATCH"), NULL, 10);
   if(batch < 1) batch = 1;
+  /* Hang protection: a child is killed by SIGALRM after 60 s (a batch) or VERIF_HIST_TIMEOUT seconds (default 10, one
+   * history).  After 6 histories of one run were killed that way the remaining histories are not run: they answer
+   * `CRASH skipped-after-timeouts` (a change that makes the library spin would otherwise cost a minute per history). */
+  unsigned hist_timeout = 10;
+  if(getenv("VERIF_HIST_TIMEOUT")) hist_timeout = (unsigned)strtoul(getenv("VERIF_HIST_TIMEOUT"), NULL, 10);
+  if(hist_timeout < 1) hist_timeout = 1;
+  int ntimeouts = 0;
   size_t i = 0;
   while(i < nlines) {
     if(nofork) {
@@ -191,6 +198,15 @@ int main(void)
           hend = j; k++;
         }
         size_t n = hend - h;
+        if(ntimeouts >= 6) {
+          for(size_t z = 0; z < n; z++) {
+            const char *t = "CRASH skipped-after-timeouts\n"; size_t tl = strlen(t);
+            if(acclen + tl + 1 > acccap) { acccap = (acclen + tl + 1) * 2; acc = realloc(acc, acccap); }
+            memcpy(acc + acclen, t, tl); acclen += tl;
+          }
+          h = hend;
+          continue;
+        }
         int pfd[2];
         if(pipe(pfd) < 0) return 2;
         fflush(stdout);
@@ -199,7 +215,7 @@ int main(void)
         if(pid == 0) {
           close(pfd[0]);
           h_outfd = pfd[1];
-          alarm(60);
+          alarm(k > 1 ? 60 : hist_timeout);
           size_t q = h;
           while(q < hend) {
             size_t j = q + 1;
@@ -227,8 +243,9 @@ int main(void)
         while(waitpid(pid, &status, 0) < 0 && errno == EINTR) ;
         char why[64] = "";
         if(WIFSIGNALED(status)) snprintf(why, sizeof why, "signal=%d", WTERMSIG(status));
+        if(WIFSIGNALED(status) && WTERMSIG(status) == SIGALRM && k == 1) ntimeouts++;
         else if(WIFEXITED(status) && WEXITSTATUS(status) != 0) snprintf(why, sizeof why, "exit=%d", WEXITSTATUS(status));
-        if((why[0] || got != n) && attempt == 0 && per > 1) { bad = 1; break; }
+        if((why[0] || got != n) && attempt == 0 && k > 1) { bad = 1; break; }
         if(acclen > start && acc[acclen - 1] != '\n') {
           if(acclen + 16 > acccap) { acccap = (acclen + 16) * 2; acc = realloc(acc, acccap); }
           memcpy(acc + acclen, " <cut>\n", 7); acclen += 7; got++;
